@@ -70,6 +70,7 @@ def run(ctx):
     try:
         c04.r43(ctx, sub)
         c04.r42(ctx, sub)
+        c04.r44(ctx, sub)
     finally:
         ctx.report = saved
     n58 = 0
@@ -79,7 +80,30 @@ def run(ctx):
         if o.rule == 'R4.2' and o.module in ('petl.comparison', 'petl.transform.sorts'):
             n58 += 1
             rep.add('R5.8', (o.module, o.qualname), o.construct, o.status, o.message, o.lineno, o.detail)
-    if n58 < 5:
+    for o in sub.obligations:
+        if o.rule == 'R4.4':
+            rep.add('R5.10', (o.module, o.qualname), o.construct, o.status, o.message, o.lineno, o.detail)
+    rep.rule('R5.10', 'sort keys of short rows are positional: a missing cell is None in its own key component (C04 R4.4), so a '
+                      'short row ties with a full row that holds None there and keeps its input position')
+    # R5.11: a pass served from the caches sees the complete result: the caches are published only once the run loop is
+    # over (C18 R18.6 for the chunk files)
+    from . import c18 as _c18
+    sub18 = Report('C18', ctx.tier, ctx.root)
+    ctx.report = sub18
+    try:
+        _c18.r183_184(ctx, sub18)
+    finally:
+        ctx.report = saved
+    n511 = 0
+    for o in sub18.obligations:
+        if o.rule == 'R18.6' and o.module == 'petl.transform.sorts':
+            n511 += 1
+            rep.add('R5.11', (o.module, o.qualname), o.construct, o.status, o.message, o.lineno, o.detail)
+    rep.rule('R5.11', 'the chunk-file cache is published to the view only after the last chunk was written (C18 R18.6): a pass '
+                      'that failed midway does not leave a partial cache for later passes')
+    if n511 < 1:
+        raise AnalysisError('anchor vanished: publication of the chunk-file cache')
+    if n58 < 3:
         raise AnalysisError('anchor vanished: only %d derived-operator obligations (Comparable / _Keyed)' % n58)
     rep.rule('R5.6', 'ordering provenance in sorts.py (C04 R4.3 restricted to the module)')
     rep.rule('R5.8', 'the operators the merges rely on besides < (max() uses >, heap items use <, <=, ...) are the stated '
